@@ -371,9 +371,9 @@ func genOpTable(repo string) (string, error) {
 		return "", err
 	}
 	type row struct {
-		val    uint64
-		name   string
-		length int64
+		val     uint64
+		name    string
+		length  int64
 		handler string
 	}
 	rows := map[uint64]row{}
